@@ -111,7 +111,11 @@ IndexConsistent == /\ DOMAIN index = {files[i].name : i \in 1..Len(files)}
 (* Case generation: every reachable state of the model with no call in      *)
 (* progress yields one history; the predicted response is exported only as  *)
 (* a class label for reporting, never as the oracle.                        *)
-View == <<files, patch, index, count, renames, last, err, dropping, open, nfeeds>>
+\* NItems is part of the view: a submission that must change nothing (a patch after a dropped duplicate, anything after
+\* an error) leaves every implementation variable as it was, and without the item count the histories that contain one,
+\* two, three such submissions would collapse into the first one found -- exactly the histories in which a wrong
+\* "skip" loop shows.
+View == <<files, patch, index, count, renames, last, err, dropping, open, nfeeds, NItems>>
 Emit == (~open /\ h # <<>>) =>
           PrintT("CASE " \o ToJson([h |-> h, nfiles |-> Len(files), err |-> err,
                                     renames |-> Cardinality({i \in 1..Len(files) : files[i].name # files[i].orig})]))
